@@ -645,6 +645,41 @@ var c08Envs = []map[string]string{
 var c08Keys = []string{"services", "networks", "volumes", "secrets", "configs", "a", "b", "init", "scale", "cpus", "cpu_percent", "cpu_count", "ulimits", "nofile", "hard", "soft", "ports", "target",
 	"external", "deploy", "replicas", "healthcheck", "retries", "disable", "volume", "nocopy", "read_only", "mode", "x-ext", "environment", "a.b", "", "*", "[]", "👻", "tty", "image", "command", "labels", "privileged", "internal"}
 
+// floatBranch names the branch of the model `parseYAMLFloat` (Model/InterpFloat.lean) a text takes, from the standard
+// library alone: the measured input distribution of the `c08casters` stream over the model's branches.
+func floatBranch(s string) string {
+	plain := strings.ReplaceAll(s, "_", "")
+	if _, err := strconv.ParseInt(plain, 0, 64); err == nil {
+		return "int-base0"
+	}
+	for _, pre := range []string{"0b", "-0b", "0o", "-0o"} {
+		if rest, ok := strings.CutPrefix(plain, pre); ok {
+			base := map[byte]int{'b': 2, 'o': 8}[pre[len(pre)-1]]
+			if _, err := strconv.ParseInt(strings.TrimSuffix(pre, pre[len(pre)-2:])+rest, base, 64); err == nil {
+				return "int-sign-after-prefix"
+			}
+		}
+	}
+	if _, err := strconv.ParseInt(plain, 10, 64); err == nil {
+		return "int-decimal-not-octal"
+	}
+	if _, err := strconv.ParseUint(plain, 0, 64); err == nil {
+		return "uint"
+	}
+	if _, err := strconv.ParseFloat(plain, 64); err == nil {
+		return "float-without-underscores"
+	}
+	if _, err := strconv.ParseFloat(s, 64); err == nil {
+		return "float-raw"
+	}
+	return "rejected"
+}
+
+func addCaster(ctx *core.Ctx, s string) {
+	ctx.Count("float-branch:" + floatBranch(s))
+	ctx.Add("c08casters", casterArgs{S: s})
+}
+
 func runC08(ctx *core.Ctx) {
 	pats := sortedCastPatterns()
 	texts := c08AllTexts()
@@ -652,7 +687,7 @@ func runC08(ctx *core.Ctx) {
 	// 0. casters alone: exhaustive over the text list, then seeded random digit/letter soup
 	for _, s := range texts {
 		ctx.Count("casters-listed")
-		ctx.Add("c08casters", casterArgs{S: s})
+		addCaster(ctx, s)
 	}
 	soup := []string{"0", "1", "9", "-", "+", "_", "t", "r", "u", "e", "T", "y", "Y", "o", "n", "N", "f", "F", "a", "l", "s", "S", " ", ".", "e", "x", "K", "ſ"}
 	for i := 0; i < ctx.Pick(4000, 200000); i++ {
@@ -669,19 +704,19 @@ func runC08(ctx *core.Ctx) {
 			}
 		}
 		ctx.Count("casters-random")
-		ctx.Add("c08casters", casterArgs{S: b.String()})
+		addCaster(ctx, b.String())
 	}
 	// texts for the self-decoding types: sizes with units, `all`, negatives
 	for _, o := range []string{"all", "ALL", "All", "alL ", "64m", "1gb", "512k", "1024b", "1kb", "10M", "2g", "1 m", "1mib", "3t", "1p", "-1", "-0", "010", "0x10", "1_024", "10x", "m", "1kk", "1.5g", "9007199254740993"} {
 		ctx.Count("casters-custom")
-		ctx.Add("c08casters", casterArgs{S: o})
+		addCaster(ctx, o)
 	}
 	// YAML integer spellings (tie of Spec.yamlInt), incl. the int64 boundary
 	for _, o := range []string{"0X1f", "0B11", "0O17", "0b+1", "0o-7", "0b-1", "-0b11", "-0o7", "-0b+1", "0_8", "09", "018", "+08", "0x", "0b", "0o", "0x_", "1__0", "_1", "+_1", "-_",
 		"0x7fffffffffffffff", "0x8000000000000000", "-0x8000000000000000", "-0x8000000000000001", "0xffffffffffffffff", "0x10000000000000000", "0b2", "0o8", "0xg", "00x1", "0x1p-2", "1e3", "1.0", "+", "-", "---", "-0", "+0", "0b", "0B_1", "0o_7", "-0O17", "+0x10", "0x1_0", "1_000", "2001-12-14", "12:30", "0.", ".5", "1_0.5", "010.5",
 		"00", "07", "010", "0440", "0777", "0644", "08", "0", "00000", "0777777777777777777777", "01000000000000000000000", "0777777777777777777778"} {
 		ctx.Count("casters-octal")
-		ctx.Add("c08casters", casterArgs{S: o})
+		addCaster(ctx, o)
 	}
 	for i := 0; i < ctx.Pick(300, 20000); i++ {
 		n := 1 + ctx.Rng.Intn(6)
@@ -706,13 +741,13 @@ func runC08(ctx *core.Ctx) {
 			}
 		}
 		ctx.Count("casters-octal")
-		ctx.Add("c08casters", casterArgs{S: string(b)})
+		addCaster(ctx, string(b))
 	}
 	// near the int64 boundary
 	for _, d := range []int64{-2, -1, 0} {
 		for _, base := range []int64{math.MaxInt64, math.MinInt64 + 2} {
 			ctx.Count("casters-boundary")
-			ctx.Add("c08casters", casterArgs{S: strconv.FormatInt(base+d, 10)})
+			addCaster(ctx, strconv.FormatInt(base+d, 10))
 		}
 	}
 
